@@ -196,8 +196,8 @@ def classify(r):
             return "C04 command-started-twice"
         before = recs[:recs.index(e)]
         p = recs[0].get("pkgs", {}).get(e["t"])
-        if p is not None and not any(x["ev"] == "ParseEnd" and x["p"] == p for x in before):
-            return "C04 command-started-before-its-package-was-parsed"
+        if p is not None and not any(x["ev"] == "ParseBegin" and x["p"] == p for x in before):
+            return "C04 command-started-before-its-package-was-looked-at"
         return "C04 command-started-before-dependency-succeeded"
     if e.get("ev") == "ParseBegin":
         return "C04 package-parsed-more-than-once"
